@@ -159,6 +159,11 @@ class Fixture(object):
     def peer_reply(self, r, seq):
         c = self.consts
         self.replied.append(r)
+        if r.endswith("x"):
+            # this request fails on the peer: the answer is an exception message
+            from rpyc.core import vinegar
+            self.net.a.inbox += frame(self.brine.dump((c.MSG_EXCEPTION, seq, vinegar.dump(ValueError, ValueError(tag(r)), None, False, False))))
+            return
         self.net.a.inbox += frame(self.brine.dump((c.MSG_REPLY, seq, (c.LABEL_VALUE, tag(r)))))
 
     # -- projection
@@ -359,6 +364,10 @@ def judge(res, reqs):
             if o is None:
                 if not any(k in ("deadlock", "livelock", "hang") for k, _ in c13):
                     c13.append(("incomplete", "request %s of %s never completed" % (r, t)))
+            elif r.endswith("x"):
+                if o[0] != "exc" or not o[1].startswith("ValueError") or tag(r) not in o[1]:
+                    c13.append(("error-as-value", "request %s of %s, which the peer answered with an exception (ValueError %s), completed "
+                                "with %r" % (r, t, tag(r), o)))
             elif o[0] == "exc":
                 c13.append(("lost-reply", "request %s of %s failed with %s although the peer answered it" % (r, t, o[1])))
             elif o[1] != tag(r):
@@ -390,6 +399,9 @@ CONFIGS = {
     "1bg": dict(reqs={"t1": ["a1", "a2"]}, bg=True),
     "3": dict(reqs={"t1": ["a1"], "t2": ["b1"], "t3": ["c1"]}, bg=False),
     "3bg": dict(reqs={"t1": ["a1", "a2"], "t2": ["b1", "b2"], "t3": ["c1"]}, bg=True),
+    # requests whose names end in x fail on the peer (line-preemption exploration only)
+    "2x": dict(reqs={"t1": ["a1x", "a2"], "t2": ["b1x"]}, bg=False),
+    "2bgx": dict(reqs={"t1": ["a1x"], "t2": ["b1"]}, bg=True),
 }
 
 
@@ -438,6 +450,78 @@ def pct_chooser(rng, depth=3, horizon=400):
         return ch[best]
     choose.record = []
     return choose
+
+
+def line_preempt_chooser(point, occurrence, seen=None, budget=400):
+    """no preemption, except: when the running thread is about to execute source line `point` = (function name, line offset)
+    for the `occurrence`-th time it is set aside and everybody else runs until blocked (or `budget` steps); then it goes on.
+    seen: optional set collecting every (function, offset) a thread stopped at."""
+    state = {"count": 0, "held": None, "left": 0}
+
+    def choose(choices, s):
+        ch = sim._order(s, choices)
+        i = 0
+        cur = ch[0][0]
+        op = getattr(cur, "pending", None)
+        info = getattr(op, "info", None) if op is not None and getattr(op, "kind", None) == "line" else None
+        if seen is not None:
+            for c in ch:
+                o = getattr(c[0], "pending", None)
+                if o is not None and getattr(o, "kind", None) == "line" and getattr(o, "info", None):
+                    seen.add(tuple(o.info))
+        if state["held"] is None and info is not None and tuple(info) == tuple(point) and cur is s.last:
+            state["count"] += 1
+            if state["count"] == occurrence:
+                state["held"], state["left"] = cur, budget
+        if state["held"] is not None:
+            others = [k for k, c in enumerate(ch) if c[0] is not state["held"]]
+            if others and state["left"] > 0:
+                state["left"] -= 1
+                i = others[0]
+            else:
+                state["held"] = False          # released for good
+        choose.record.append(i)
+        return ch[i]
+    choose.record = []
+    return choose
+
+
+def explore_line_preemptions(chk, cfgname, on_result, max_points=None):
+    """every source line of serve / _dispatch / AsyncResult.__call__ / wait / value ... as the one place where the running thread
+    is set aside while the others run: the schedules in which a reader sees a half-finished update"""
+    cfg = CONFIGS[cfgname]
+    seen = set()
+    ch = line_preempt_chooser(("", -1), 1, seen)
+    res = run_impl(cfg["reqs"], cfg["bg"], ch, lines=True)
+    on_result(res, cfg, {"mode": "indices", "config": cfgname, "lines": True, "indices": ch.record})
+    # a second discovery run with random switching sees the lines of paths the straight run does not take
+    rr = random_chooser(random.Random(chk.seed + 5), 0.5)
+    seen2 = set()
+
+    def spy(choices, s):
+        for c in sim._order(s, choices):
+            o = getattr(c[0], "pending", None)
+            if o is not None and getattr(o, "kind", None) == "line" and getattr(o, "info", None):
+                seen2.add(tuple(o.info))
+        return rr(choices, s)
+    spy.record = rr.record
+    res = run_impl(cfg["reqs"], cfg["bg"], spy, lines=True)
+    on_result(res, cfg, {"mode": "indices", "config": cfgname, "lines": True, "indices": rr.record})
+    points = sorted(seen | seen2)
+    if max_points is not None and len(points) > max_points:
+        random.Random(chk.seed + 11).shuffle(points)
+        points = sorted(points[:max_points])
+    n = 0
+    for pt in points:
+        for occ in (1, 2, 3):
+            ch = line_preempt_chooser(pt, occ)
+            res = run_impl(cfg["reqs"], cfg["bg"], ch, lines=True)
+            on_result(res, cfg, {"mode": "indices", "config": cfgname, "lines": True, "indices": ch.record})
+            n += 1
+            if n % 100 == 0:
+                gc.collect()
+    chk.cov["line_preemptions_%s" % cfgname] = {"points": len(points), "runs": n}
+    return n
 
 
 def index_chooser(indices, bound=None):
